@@ -28,6 +28,7 @@ _SEED = 0
 
 def _worker(i):
     t = _TARGETS[i]
+    core.limit_memory()
     try:
         if hasattr(t, "run_custom"):
             return t.run_custom(_FINDINGS, _SEED)
@@ -194,7 +195,7 @@ def main(argv=None):
                         try:
                             env = dict((k.replace("!", "_"), v) for k, v in cf["values"].items())
                             env.update({"And": lambda *a: all(a), "Or": lambda *a: any(a), "Not": lambda a: not a,
-                                        "Implies": lambda a, b: (not a) or b})
+                                        "Implies": lambda a, b: (not a) or b, "Max": max, "Min": min})
                             if eval(f["witness"], {"__builtins__": {}}, env):
                                 covered = True
                                 known_lines.setdefault(f["id"], {"finding": f["id"], "obligation": r["id"] + "/runtime",
